@@ -203,7 +203,8 @@ def run(ctx):
         try:
             feed_all(conn, data, cuts)
         except Exception as e:
-            ctx.violation("process-io-buffer-raises", "feeding a valid segment stream raised %s: %s" % (type(e).__name__, e), wit)
+            ctx.violation("process-io-buffer-never-returns" if type(e).__name__ == 'NeverReturned' else "process-io-buffer-raises",
+                          "feeding a valid segment stream raised %s: %s" % (type(e).__name__, e), wit)
             continue
         if conn.is_defunct:
             mech = "spurious-failure-on-valid-stream"
@@ -273,7 +274,8 @@ def run(ctx):
             try:
                 feed_all(conn, bytes(bad), cuts)
             except Exception as e:
-                ctx.violation("process-io-buffer-raises", "feeding a corrupted stream raised %s: %s" % (type(e).__name__, e), wit)
+                ctx.violation("process-io-buffer-never-returns" if type(e).__name__ == 'NeverReturned' else "process-io-buffer-raises",
+                              "feeding a corrupted stream raised %s: %s" % (type(e).__name__, e), wit)
                 continue
             got = observed(log)
             if got != allowed_contents[:len(got)] or len(got) > len(allowed_contents):
